@@ -216,6 +216,12 @@ def dateparse(val: str, t: type[DateTimeT]) -> DateTimeT:
             the target datetime type.
     """
     try:
+        if issubclass(t, datetime.time):
+            # pendulum drops the UTC offset of time-only text; the stdlib reader keeps it.
+            with contextlib.suppress(ValueError):
+                aware = datetime.time.fromisoformat(val)
+                if aware.tzinfo is not None:
+                    return aware  # type: ignore[return-value]
         # When `exact=False`, the only two possibilities are DateTime and Duration.
         # The ISO parser knows no signed durations: carry the sign of `-P...` ourselves.
         negative = val.startswith("-P")
